@@ -989,6 +989,12 @@ func (c *Chain) commit(work common.BeaconState, epc *common.EpochsContext, step 
 	c.Epc = epc
 	ct := &c.Counters
 	ct.Slots++
+	if step.EpcRepaired {
+		ct.EpcRepairs++
+	}
+	if step.PlainRejected {
+		ct.PlainRejected++
+	}
 	if step.Skipped {
 		ct.Skipped++
 		if step.Forced {
